@@ -269,29 +269,76 @@ func c19Search(g *Gen, op string, n *big.Int, xs []*big.Int) {
 	g.Count(op)
 }
 
+// c19Spare copies xs into a slice with three caller-owned sentinel elements behind it, so that the
+// argument handed to a helper has spare capacity that belongs to the caller; c19SpareOK checks them.
+func c19Spare(xs []*big.Int) (full, view []*big.Int) {
+	full = make([]*big.Int, 0, len(xs)+3)
+	full = append(full, xs...)
+	for i := 0; i < 3; i++ {
+		full = append(full, big.NewInt(-9001-int64(i)))
+	}
+	return full, full[:len(xs)]
+}
+
+func c19SpareOK(full []*big.Int, n int) bool {
+	for i := 0; i < 3; i++ {
+		if full[n+i] == nil || full[n+i].Cmp(big.NewInt(-9001-int64(i))) != 0 {
+			return false
+		}
+	}
+	return true
+}
+
 func c19Unique(g *Gen, xs []*big.Int) {
+	full, xs := c19Spare(xs)
 	ptrs, vals := c19snap(xs)
 	out := ""
-	p := c19call(g, "unique", func() { out = encInts(verifhooks.BigintsUnique(xs)) })
-	g.Line("c19", "unique", encInts(vals), c19out(p, out), b01(c19same(xs, ptrs, vals)))
+	held := true
+	p := c19call(g, "unique", func() {
+		r := verifhooks.BigintsUnique(xs)
+		out = encInts(r)
+		_ = verifhooks.BigintsUnique(xs)
+		_ = append(verifhooks.BigintsUnique(xs), big.NewInt(-5))
+		held = encInts(r) == out
+	})
+	g.Line("c19", "unique", encInts(vals), c19out(p, out), b01(c19same(xs, ptrs, vals) && c19SpareOK(full, len(xs)) && held))
 	g.Count("unique")
 }
 
 func c19Insert(g *Gen, xs []*big.Int, x *big.Int) {
 	bx := new(big.Int).Set(x)
+	full, xs := c19Spare(xs)
 	ptrs, vals := c19snap(xs)
 	out := ""
-	p := c19call(g, "insert", func() { out = encInts(verifhooks.BigintsInsertSortedUnique(xs, x)) })
-	g.Line("c19", "insert", encInts(vals), bx.String(), c19out(p, out), b01(bx.Cmp(x) == 0 && c19same(xs, ptrs, vals)))
+	held := true
+	p := c19call(g, "insert", func() {
+		r := verifhooks.BigintsInsertSortedUnique(xs, x)
+		out = encInts(r)
+		// further insertions into the same argument must not disturb the first result
+		_ = verifhooks.BigintsInsertSortedUnique(xs, new(big.Int).Add(x, big.NewInt(1)))
+		_ = verifhooks.BigintsInsertSortedUnique(xs, new(big.Int).Sub(x, big.NewInt(1)))
+		_ = verifhooks.BigintsInsertSortedUnique(xs, big.NewInt(-1000000))
+		held = encInts(r) == out
+	})
+	g.Line("c19", "insert", encInts(vals), bx.String(), c19out(p, out), b01(bx.Cmp(x) == 0 && c19same(xs, ptrs, vals) && c19SpareOK(full, len(xs)) && held))
 	g.Count("insert")
 }
 
 func c19Merge(g *Gen, xs, ys []*big.Int) {
+	fx, xs := c19Spare(xs)
+	fy, ys := c19Spare(ys)
 	px, vx := c19snap(xs)
 	py, vy := c19snap(ys)
 	out := ""
-	p := c19call(g, "merge", func() { out = encInts(verifhooks.BigintsMergeUnique(xs, ys)) })
-	g.Line("c19", "merge", encInts(vx), encInts(vy), c19out(p, out), b01(c19same(xs, px, vx) && c19same(ys, py, vy)))
+	held := true
+	p := c19call(g, "merge", func() {
+		r := verifhooks.BigintsMergeUnique(xs, ys)
+		out = encInts(r)
+		_ = verifhooks.BigintsMergeUnique(ys, xs)
+		_ = verifhooks.BigintsMergeUnique(xs, []*big.Int{big.NewInt(-1000000)})
+		held = encInts(r) == out
+	})
+	g.Line("c19", "merge", encInts(vx), encInts(vy), c19out(p, out), b01(c19same(xs, px, vx) && c19same(ys, py, vy) && c19SpareOK(fx, len(xs)) && c19SpareOK(fy, len(ys)) && held))
 	g.Count("merge")
 }
 
